@@ -355,11 +355,17 @@ SyncVals(fs, i, vals, explicit) ==      \* [ok, vals, name]
               ELSE SyncVals(fs, i + 1, SetVal(vals, fs[i].name, r.v), explicit)
          ELSE SyncVals(fs, i + 1, vals, explicit)
 
-PFrame(cls, vals, pos) == [kind |-> "pkt", cls |-> cls, idx |-> 1, pos |-> pos, vals |-> vals, bitsI |-> 0]
+\* exp: the packet was built from keyword arguments (its descriptors were assigned explicitly)
+PFrame(cls, vals, pos) == [kind |-> "pkt", cls |-> cls, idx |-> 1, pos |-> pos, vals |-> vals, bitsI |-> 0, exp |-> FALSE]
+\* a nested packet is explicit iff it was handed over in the root's keywords, or lives inside an explicit packet
+ChildFrame(p, f, v) ==
+    LET ow == Owner(p.stack)
+        e == p.nexp /\ (IF OwnerIdx(p.stack) = 1 THEN f.name \in p.knames ELSE ow.exp)
+    IN [PFrame(v.cls, v.vals, 0) EXCEPT !.exp = e]
 
 PInit0(root, vals, regs) ==
     [st |-> "enter", frag |-> FInit, stack |-> <<PFrame(root, vals, 0)>>, err |-> <<>>,
-     writes |-> <<>>, evs |-> <<>>, regs |-> regs, out |-> <<>>, explicit |-> {}, hookname |-> "", nexp |-> FALSE]
+     writes |-> <<>>, evs |-> <<>>, regs |-> regs, out |-> <<>>, explicit |-> {}, hookname |-> "", nexp |-> FALSE, knames |-> {}]
 
 FailP(p) == [p EXCEPT !.st = "unwind"]
 
@@ -410,9 +416,9 @@ PackValue(dp, p, f, v) ==
                  IN IF r.ok THEN PDone(dp, r.p) ELSE FailP(r.p)
       [] f.k = "Ref" ->
             IF v.t # "pkt" THEN FailP(p)
-            ELSE [p EXCEPT !.st = "enter", !.stack = Append(@, PFrame(v.cls, v.vals, 0))]
+            ELSE [p EXCEPT !.st = "enter", !.stack = Append(@, ChildFrame(p, f, v))]
       [] f.k = "RefSel" ->
-            IF v.t = "pkt" THEN [p EXCEPT !.st = "enter", !.stack = Append(@, PFrame(v.cls, v.vals, 0))]
+            IF v.t = "pkt" THEN [p EXCEPT !.st = "enter", !.stack = Append(@, ChildFrame(p, f, v))]
             ELSE LET key == Eval(f.key, EnvP(p)) IN
                  IF ~key.ok THEN FailP(p)
                  ELSE LET hits == {i \in 1..Len(f.alts) : IntV(f.alts[i].key) = key.v} IN
@@ -469,7 +475,7 @@ StepP(dp, p) ==
             LET allDesc == {dp[fr.cls].fields[i].name : i \in {j \in 1..Len(dp[fr.cls].fields) :
                                 dp[fr.cls].fields[j].k = "Int" /\ dp[fr.cls].fields[j].desc.kind # "none"}}
                 s == SyncVals(dp[fr.cls].fields, 1, fr.vals,
-                              IF Len(p.stack) = 1 THEN p.explicit ELSE IF p.nexp THEN allDesc ELSE {}) IN
+                              IF Len(p.stack) = 1 THEN p.explicit ELSE IF fr.exp THEN allDesc ELSE {}) IN
             IF ~s.ok THEN FailP([p EXCEPT !.st = "run", !.hookname = s.name])
             ELSE [p EXCEPT !.st = "run",
                            !.stack = SetTop(@, [fr EXCEPT !.vals = s.vals, !.pos = p.frag.cur,
